@@ -74,6 +74,31 @@ def gen(rng):
         s.refs.append((name, tip))
         if commits and name.startswith(stem):
             s.refs.append((stem, commits[0]))
+    if rng.random() < 0.4:
+        # the witnesses of different rows sit below SIBLING directories of one tree (two of them below the same one), under a
+        # reference whose name has any length from 12 to 50 bytes: each description is composed from the names on the way
+        # down, and composing one may not disturb another that shares a beginning with it
+        small = s.add({"kind": "blob", "data": b"s\n"})
+        bigw = s.add({"kind": "blob", "data": bytes(rng.randrange(256) for _ in range(80)) * 500})
+        lnk = s.add({"kind": "blob", "data": b"../target"})
+        names = rng.choice([(b"a", b"b", b"c", b"d"), (b"lib", b"src", b"doc", b"etc"), (b"a", b"ab", b"abc", b"abcd"), (b"dir-one", b"dir-two", b"dir-3", b"d"),
+                            (b"x" * 30, b"y" * 30, b"z" * 30, b"w" * 30)])
+        x = s.add({"kind": "tree", "entries": [(0o100644, b"e%02d" % i, small) for i in range(30)]})
+        y = s.add({"kind": "tree", "entries": [(0o120000, b"l%d" % i, lnk) for i in range(6)]})
+        z = s.add({"kind": "tree", "entries": [(0o160000, b"m%d" % i, bytes([i + 1]) * 20) for i in range(5)]})
+        deep = s.add({"kind": "tree", "entries": [(0o100644, b"bottom", small)]})
+        for i in range(14):
+            deep = s.add({"kind": "tree", "entries": [(0o40000, b"n%d" % i, deep)]})
+        da = s.add({"kind": "tree", "entries": [(0o40000, b"x", x), (0o40000, b"y", y)]})
+        db = s.add({"kind": "tree", "entries": sorted([(0o100644, b"big", bigw), (0o100644, b"y", small), (0o40000, b"z", z)],
+                                                       key=lambda e: e[1] + (b"/" if e[0] == 0o40000 else b""))})
+        dc = s.add({"kind": "tree", "entries": [(0o40000, b"deep", deep)]})
+        dd = s.add({"kind": "tree", "entries": [(0o100644, b"L" * 200, small)]})
+        ents = sorted(zip(names, (da, db, dc, dd)), key=lambda e: e[0] + b"/")
+        top = s.add({"kind": "tree", "entries": [(0o40000, n_, t_) for n_, t_ in ents]})
+        commits = [i for i, o in enumerate(s.objects) if o["kind"] == "commit"]
+        tip = s.add({"kind": "commit", "tree": top, "parents": commits[-1:], "date": 1500000300})
+        s.refs.append((b"refs/heads/" + b"m" * rng.randrange(1, 40), tip))
     return s.normalize()
 
 
